@@ -7,6 +7,7 @@ isolation between agents through shared caches; the ranking law and tier rules a
 """
 from __future__ import annotations
 
+import contextlib
 import copy
 import math
 from typing import Any, Dict, List, Optional
@@ -21,6 +22,7 @@ from vsim import engine as E  # noqa: E402
 from vsim.clock import SimClock  # noqa: E402
 from vsim.rng import Rng  # noqa: E402
 from vsim.scratch import Scratch  # noqa: E402
+from vsim.sched import ParallelSeams  # noqa: E402
 
 import clematis.engine.orchestrator as orch  # noqa: E402
 import clematis.engine.orchestrator.core as core  # noqa: E402
@@ -73,6 +75,10 @@ def generate(seed: int, tier: str) -> Dict[str, Any]:
         raw["t2"]["sim_threshold"] = r.choice([-1.0, -0.2, 0.0, 0.05])
     if r.chance(0.2):
         raw["scheduler"] = {"enabled": True, "quantum_ms": 10**9, "budgets": {"wall_ms": 2 * 10**9, "t2_k": r.choice([0, 1, 2])}}
+    if r.chance(0.3):
+        # the T1/T2 fan-out is the same retrieval contract: shards, per-shard hits, merged and rescored
+        raw["perf"] = dict(raw.get("perf") or {}, enabled=True)
+        raw["perf"]["parallel"] = {"enabled": True, "t1": r.chance(0.5), "t2": True, "agents": False, "max_workers": r.choice([2, 3, 4])}
     agents = sorted(world["agents"])
     ro = rng.stream("ops")
     texts = [E.gen_text(ro) for _ in range(r.randint(1, 2))]
@@ -130,8 +136,11 @@ def execute(p: Dict[str, Any]) -> Dict[str, Any]:
             viol.append({"cls": "retrieval", "sig": sig, "detail": detail})
 
     clock = SimClock(None, "steady")
+    par = bool(((p["cfg"].get("perf") or {}).get("parallel") or {}).get("enabled"))
     with Scratch() as root:
-        with E.EngineEnv(root, clock) as ee:
+        with E.EngineEnv(root, clock) as ee, (ParallelSeams(Rng(int(E.jdigest(p)[:8], 16)).stream("sched")) if par else contextlib.nullcontext()):
+            if par:
+                stats["parallel_runs"] = 1
             run = E.EngineRun(p["world"], p["cfg"], ee)
             real_t2 = core.t2_semantic
             real_q = t2core._apply_quality
